@@ -21,7 +21,7 @@ def run(facts, tier):
         ("tautologies", lambda fa: generic_lints.tautologies(fa, ('sampling/',)), 2, "no comparison / assignment / min-max with two identical operands"),
         ("duplicate operands", lambda fa: generic_lints.duplicate_conjuncts(fa, ('sampling/',)), 2, "no logical chain tests the same operand twice"),
         ("vacuous loops", lambda fa: generic_lints.vacuous_loops(fa, ('sampling/',)), 2, "no counted loop whose bound was just reset to its start value"),
-        ("structural triggers", lambda fa: triggers.obligations(fa, ["var_opt_sketch"]), 11, "the comparisons that decide when to compress / grow / downsample keep their reviewed boundary (operator and constants)"),
+        ("structural triggers", lambda fa: triggers.obligations(fa, ["var_opt_sketch"]), 18, "the comparisons that decide when to compress / grow / downsample keep their reviewed boundary (operator and constants)"),
     ):
         o = f(facts)
         obs += o
